@@ -52,6 +52,7 @@ class Forward:
         loop_elem: Callable[[ast.AST, Env], Tags] | None = None,
         aug: Callable[[ast.AugAssign, Env], Tags] | None = None,
         effect: Callable[[ast.AST, Env], Env | None] | None = None,
+        rebind: Callable[[set, Env], Env] | None = None,
     ):
         self.cfg = cfg
         self.evaluate = evaluate
@@ -59,6 +60,7 @@ class Forward:
         self.loop_elem = loop_elem
         self.aug = aug
         self.effect = effect
+        self.rebind = rebind  # optional: (names bound by the node, env) -> env
         self.env_in: dict[int, Env] = {cfg.entry: dict(init or {})}
         self._run()
 
@@ -126,6 +128,22 @@ class Forward:
             for sub in ast.walk(root):
                 if isinstance(sub, ast.NamedExpr):
                     env[sub.target.id] = self.evaluate(sub.value, env)
+        if self.rebind is not None and node is not None:
+            tgts: list[ast.AST] = []
+            if kind == "stmt" and isinstance(node, ast.Assign):
+                tgts = list(node.targets)
+            elif kind == "stmt" and isinstance(node, (ast.AnnAssign, ast.AugAssign)):
+                tgts = [node.target]
+            elif kind == "loop":
+                tgts = [node.target]
+            elif kind == "with":
+                tgts = [it.optional_vars for it in node.items if it.optional_vars is not None]
+            names = {x.id for t in tgts for x in ast.walk(t) if isinstance(x, ast.Name) and isinstance(x.ctx, ast.Store)}
+            if kind in ("stmt", "test"):
+                root = node.test if kind == "test" else node
+                names |= {sub.target.id for sub in ast.walk(root) if isinstance(sub, ast.NamedExpr)}
+            if names:
+                env = self.rebind(names, env)
         return env
 
     def _run(self) -> None:
@@ -237,7 +255,7 @@ class SymValues:
     ``max_len`` or a loop-carried value make the local opaque: it stays as its own name.
     """
 
-    def __init__(self, func: ast.AST, *, max_alts: int = 4, max_len: int = 300):
+    def __init__(self, func: ast.AST, *, max_alts: int = 4, max_len: int = 300, kill_on_rebind: bool = False):
         import copy
         import itertools
 
@@ -265,6 +283,10 @@ class SymValues:
                             stored.append(ast.unparse(sub))
                         elif isinstance(sub, ast.Subscript) and isinstance(sub.ctx, (ast.Store, ast.Del)):
                             stored.append(ast.unparse(sub.value))
+                            if isinstance(sub.value, ast.Name):
+                                # ``v[k] = e``: the local no longer stands for the expression that defined it
+                                env = dict(env)
+                                env[sub.value.id] = UNKNOWN
             # a mutating method called on a local: the local (and whatever was unfolded from it) no longer stands for its
             # defining expression
             for sub in ast.walk(node) if isinstance(node, (ast.Expr, ast.Assign, ast.AugAssign, ast.AnnAssign, ast.Return)) else ():
@@ -286,7 +308,21 @@ class SymValues:
         if a_ is not None:
             for p_ in [*a_.posonlyargs, *a_.args, *a_.kwonlyargs, *([a_.vararg] if a_.vararg else []), *([a_.kwarg] if a_.kwarg else [])]:
                 init[p_.arg] = frozenset({p_.arg})
-        self.fw = Forward(self.cfg, self._ev, init=init, aug=aug, effect=effect)
+        def rebind(names, env):
+            # a local whose unfolded value mentions a name that is bound again here (a loop variable at the next
+            # iteration, a parameter that is re-assigned) was computed from the OLD value of that name
+            new = None
+            for k, v in env.items():
+                if k in names or not isinstance(v, frozenset) or "?" in v:
+                    continue
+                if any(re.search(r"(?<![\w.])" + re.escape(n_) + r"(?!\w)", txt) for txt in v for n_ in names):
+                    new = new or dict(env)
+                    new[k] = UNKNOWN
+            return new or env
+
+        # opt-in: by default a text that mentions an opaque name (a loop variable, a parameter) is read under the binding
+        # that name has where the text is used; rules comparing such texts across a re-binding ask for the strict form
+        self.fw = Forward(self.cfg, self._ev, init=init, aug=aug, effect=effect, rebind=rebind if kill_on_rebind else None)
 
     def _alts(self, name: str, env) -> list[str] | None:
         v = env.get(name)
